@@ -17,14 +17,14 @@ import (
 )
 
 type PropConfig struct {
-	Funcs     []string `json:"funcs"`      // functions whose obligations decide the property
-	Lemmas    []string `json:"lemmas"`     // spec lemmas
-	Engines   []string `json:"engines"`    // extra engines: "effects:<rule>", "ground", "bounded:<name>"
-	Safety    bool     `json:"safety"`     // the property claims absence of panics: safety obligations count
-	Replay    string   `json:"replay"`     // harness name under /verif/replay
-	Level     string   `json:"level"`      // evidence level
-	Trusted   []string `json:"trusted"`    // extra trusted-base entries (paper theorems)
-	Explain   string   `json:"explain"`
+	Funcs   []string `json:"funcs"`   // functions whose obligations decide the property
+	Lemmas  []string `json:"lemmas"`  // spec lemmas
+	Engines []string `json:"engines"` // extra engines: "effects:<rule>", "ground", "bounded:<name>"
+	Safety  bool     `json:"safety"`  // the property claims absence of panics: safety obligations count
+	Replay  string   `json:"replay"`  // harness name under /verif/replay
+	Level   string   `json:"level"`   // evidence level
+	Trusted []string `json:"trusted"` // extra trusted-base entries (paper theorems)
+	Explain string   `json:"explain"`
 }
 
 type KnownFinding struct {
@@ -364,17 +364,17 @@ func runCheck(args []string) int {
 		}
 		cov := map[string]interface{}{
 			"obligations": nObl, "discharged": nDis,
-			"checker_cmd":  fmt.Sprintf("/verif/check %s --tier %s", prop, *tier),
-			"trusted_base": trusted,
-			"samples":      samples,
+			"checker_cmd":              fmt.Sprintf("/verif/check %s --tier %s", prop, *tier),
+			"trusted_base":             trusted,
+			"samples":                  samples,
 			"functions_under_contract": cfg.Funcs,
-			"lemmas":       cfg.Lemmas,
-			"queries":      len(all) - nOther,
+			"lemmas":                   cfg.Lemmas,
+			"queries":                  len(all) - nOther,
 			"obligations_of_other_properties_not_counted": nOther,
-			"by_backend":   byBackend,
+			"by_backend":    byBackend,
 			"solver_time_s": round3(solverTime),
-			"vacuity": map[string]interface{}{"canaries": nCanary, "note": "each canary asserts `false` at a reachable point (after requires, after loop invariants, at returns) and must NOT be provable"},
-			"explanation":  cfg.Explain,
+			"vacuity":       map[string]interface{}{"canaries": nCanary, "note": "each canary asserts `false` at a reachable point (after requires, after loop invariants, at returns) and must NOT be provable"},
+			"explanation":   cfg.Explain,
 		}
 		if level != "proof" {
 			cov["explanation"] = cfg.Explain
